@@ -37,7 +37,7 @@ Proof. reflexivity. Qed.
 (* ---- the translated checks and the scope operations: which inputs make them raise, nothing else does, no fuel runs out.
    (Gen/RuleChecks.v, Gen/Counters.v, Gen/ScopeOps.v are regenerated from the source on every run; Proofs/CrashFree.v) *)
 From NV Require Import Model.RuleChecks Gen.RuleChecks Model.CounterBase Gen.Counters Model.ScopeBase Gen.ScopeOps Model.ScopeTrace
-  Proofs.RuleChecksProofs Proofs.RuleChecksProofs2 Proofs.CrashFree.
+  Proofs.RuleChecksProofs Proofs.RuleChecksProofs2 Proofs.SpacingTotal Proofs.CrashFree.
 Local Open Scope Z_scope.
 
 Theorem C05_check_ternary_total : forall toks scope v, exists r, check_ternary toks scope v = Ok r.
@@ -73,19 +73,19 @@ Theorem C05_check_line_indent_total_in_registry : forall toks scope v, toks <> [
 Proof. exact check_line_indent_total_in_registry. Qed.
 Print Assumptions C05_check_line_indent_total_in_registry.
 
-(* CheckSpacing: total (no AttributeError, no fuel exhaustion) unless the remaining tokens end in a SPACE *)
-Theorem C05_check_spacing_total_unless_trailing_space : forall toks scope, last_not_space toks -> 0 <= scope ->
+(* CheckSpacing: total (no AttributeError, no fuel exhaustion) on every statement the registry passes *)
+Theorem C05_check_spacing_total_in_registry : forall toks scope, 0 <= scope ->
   forall v, v_history v <> [] -> exists r, check_spacing toks scope v = Ok r.
 Proof. exact check_spacing_total. Qed.
-Print Assumptions C05_check_spacing_total_unless_trailing_space.
-Theorem C05_check_spacing_crash_only_at_trailing_space : forall toks scope v e, 0 <= scope -> v_history v <> [] ->
-  check_spacing toks scope v = Crash e -> truthy (check1 toks (zlen toks - 1) ty_space) = true.
-Proof. exact check_spacing_crash_only_at_trailing_space. Qed.
-Print Assumptions C05_check_spacing_crash_only_at_trailing_space.
-(* ... and that crash is REACHABLE: `int<TAB>a;\<newline><space><EOF>` (recorded from the implementation) *)
-Theorem C05_refuted_check_spacing_eof_blank : check_spacing crash_tokens 5 crash_view = Crash AttributeError.
-Proof. exact check_spacing_crashes_at_eof_blank. Qed.
-Print Assumptions C05_refuted_check_spacing_eof_blank.
+Print Assumptions C05_check_spacing_total_in_registry.
+Theorem C05_check_spacing_crash_no_history : forall toks scope v, v_history v = [] -> check_spacing toks scope v = Crash IndexError.
+Proof. exact check_spacing_crash_no_history. Qed.
+Print Assumptions C05_check_spacing_crash_no_history.
+(* the invocation that used to raise AttributeError (`int<TAB>a;\<newline><space><EOF>`, recorded from the implementation):
+   SPACE_REPLACE_TAB is reported at the last token *)
+Theorem C05_check_spacing_reports_at_eof_blank : check_spacing crash_tokens 5 crash_view = Ok ([(s "SPACE_REPLACE_TAB", 2, 1)], crash_view).
+Proof. exact check_spacing_reports_at_eof_blank. Qed.
+Print Assumptions C05_check_spacing_reports_at_eof_blank.
 
 (* Context.skip_nest and the parameter counter of CheckFuncDeclaration: never out of fuel, only CParsingError or AttributeError *)
 Theorem C05_skip_nest_total : forall toks pos, 0 <= pos -> nest_ok (skip_nest toks pos) pos.
